@@ -241,7 +241,7 @@ class GenerateModulesMap(Contract):
     def ensures(self, ex, pre, st, a, result):
         M = ex.models.list_term(pre, pre.get(a["self"], "modules"), INT)
         if not isinstance(result, VDict):
-            return [("returns-a-dict", tm.FALSE)]
+            return [("returns-a-dict", None)]
         arr = map_arr(st, result)
         s = tm.V("s", STR)
         return map_post(M, arr) + [
@@ -464,7 +464,7 @@ class GenerateAssembly(Contract):
         P = st.ghost.get("path")
         removed = st.ghost.get("removed")
         if P is None:
-            return [("ghost-path-recorded", tm.FALSE)]
+            return [("ghost-path-recorded", None)]
         o = last_end(P, v)
         args = st.get(exc, "start_overhang")
         out = [(l, t) for (l, t) in chain(P, v, A0)]
@@ -489,7 +489,7 @@ class GenerateAssembly(Contract):
         A0 = map_arr(pre, a["modmap"])
         P = st.ghost.get("path")
         if P is None:
-            return [("ghost-path-recorded", tm.FALSE)]
+            return [("ghost-path-recorded", None)]
         need_catfeats(ex.models)
         out = [("circular-record", tm.B(isinstance(result, VObj) and result.kind == "CircularRecord")),
                ("product-is-cat-of-the-walk-then-the-vector-fragment",
@@ -939,7 +939,7 @@ class SaveCitations(Contract):
             return out
         alts = getattr(result, "alts", None) if isinstance(result, VRepList) else None
         if not alts or len(alts) != 1:
-            out.append(("one-saved-pair-per-cited-feature", tm.FALSE))
+            out.append(("one-saved-pair-per-cited-feature", None))
             return out
         conds, el, s_el = alts[0]
         ok = isinstance(el, VTuple) and len(el.items) == 2 and el.items[0] is info["feature"]
